@@ -239,6 +239,10 @@ main(void)
             printf("R begin verify_pk2\n");
             printf("R verify_pk2 %d\n", protocols_verif(&sig, &pk2, msg, msglen));
         } else if (!strncmp(line, "verify", 6)) {
+            if (!have_saved) { /* the last sign did not report success: sig is not a signature */
+                printf("R verify skipped\n");
+                continue;
+            }
             printf("R begin verify\n");
             printf("R verify %d\n", protocols_verif(&sig, &pk, msg, msglen));
 #endif
